@@ -245,6 +245,7 @@ class LockEngine(Engine):
             for kk, v in updates.items():
               if store.get(kk, '<absent>') != v:
                 fails.append(('hook-update-not-applied', '%r -> %r, store has %r' % (kk, v, store.get(kk, '<absent>'))))
+    fails = m.readback_fails() + fails
     return {'obs': obs, 'fails': fails[:3], 'nontrivial': nontrivial, 'tags': tags}
 
 
